@@ -46,6 +46,7 @@ def call_Handler (f : FuncVal) (r : router) (_w : Env) (_req : Lib.Request) (par
 def call_HandlerFunc (f : FuncVal) (r : router) (_w : Env) (_req : Lib.Request) : router :=
   { r with world := r.world ++ [Lib.Dispatch.notFound f] }
 `,
-		skip: map[string]string{},
+		skip:      map[string]string{},
+		callFuncs: map[string]bool{"Handler": true, "HandlerFunc": true},
 	})
 }
